@@ -140,6 +140,13 @@ fn push_to_call_stack(state: &mut HashMap<String, StateValue>, call_info: &CallI
     call_stack.push(StateValue::SubState(sub_state));
 }
 
+pub(crate) fn get_call_stack_depth(state: &mut HashMap<String, StateValue>) -> usize {
+    let fn_state = get_core_sub_state_for_command(state, FUNCTION_STATE_KEY.to_string());
+    let call_stack = get_list(CALL_STACK_STATE_KEY.to_string(), fn_state);
+
+    call_stack.len()
+}
+
 fn pop_from_call_stack(state: &mut HashMap<String, StateValue>) -> Option<CallInfo> {
     let fn_state = get_core_sub_state_for_command(state, FUNCTION_STATE_KEY.to_string());
     let call_stack = get_list(CALL_STACK_STATE_KEY.to_string(), fn_state);
@@ -474,6 +481,9 @@ impl Command for EndFunctionCommand {
                 {
                     let next_line = call_info.call_line + 1;
 
+                    let call_depth = get_call_stack_depth(context.state);
+                    forin::remove_call_info_above_depth(call_depth, context.state);
+
                     if call_info.scoped {
                         match scope::pop(context.variables, context.state, &vec![]) {
                             Err(error) => return CommandResult::Error(error),
@@ -541,6 +551,10 @@ impl Command for ReturnCommand {
                     } else {
                         Some(context.arguments[0].clone())
                     };
+
+                    // loops left by this return must not be resumed by later calls
+                    let call_depth = get_call_stack_depth(context.state);
+                    forin::remove_call_info_above_depth(call_depth, context.state);
 
                     if call_info.scoped {
                         let copy = match call_info.output_variable {
